@@ -60,3 +60,45 @@ if __name__ == '__main__':
         assert g[6] == (dt.weekday() + 1) % 7 and g[7] == dt.timetuple().tm_yday - 1
         assert unix_time(*g[:6]) == t
     print(MIN_T, MAX_T)
+
+
+# ---- POSIX rule days (independent reference for judging native replays)
+def rule_day_instant(day, year, dt):
+    """day = ('J', n) | ('Z', n) | ('M', m, w, d); UTC instant of that rule day in `year` at day-time dt (seconds, already in UTC)"""
+    if day[0] == 'J':
+        n = day[1]
+        yd = n - 1 + (1 if is_leap(year) and n >= 60 else 0)
+        return (days_from_civil(year, 1, 1) + yd) * 86400 + dt
+    if day[0] == 'Z':
+        return (days_from_civil(year, 1, 1) + day[1]) * 86400 + dt
+    _, m, w, d = day
+    first = days_from_civil(year, m, 1)
+    ks = [k for k in range(1, dim(year, m) + 1) if (first + k - 1 + 4) % 7 == d]
+    k = ks[-1] if w == 5 else ks[w - 1]
+    return (first + k - 1) * 86400 + dt
+
+
+def rule_is_dst(start, st, end, et, stdoff, dstoff, t, reading='A', span=4):
+    """DST at instant t for the rule, by the defining sentence of C04; reading A: an end instant equal to the start closes the
+    period at once, reading B: only a strictly later end instant closes it. Returns bool."""
+    y = gmtime(t)[0]
+    S = [rule_day_instant(start, k, st - stdoff) for k in range(y - span, y + span + 1)]
+    E = [rule_day_instant(end, k, et - dstoff) for k in range(y - span, y + span + 2)]
+    for s in S:
+        if s <= t:
+            if reading == 'A':
+                closed = any(s <= e <= t for e in E)
+            else:
+                closed = any(s < e <= t for e in E)
+            if not closed:
+                return True
+    return False
+
+
+def rule_pattern(start, st, end, et, stdoff, dstoff, years):
+    S = {k: rule_day_instant(start, k, st - stdoff) for k in years}
+    E = {k: rule_day_instant(end, k, et - dstoff) for k in years}
+    ys = [k for k in years if k + 1 in S]
+    north = all(S[k] <= E[k] <= S[k + 1] for k in ys)
+    south = all(E[k] <= S[k] <= E[k + 1] for k in ys)
+    return north, south
